@@ -5,7 +5,7 @@ EXPECTED = {
             "c04:msg-single-one", "c04:msg-zero", "c04:shuffle-at-2way", "c04:shuffle-at-3way", "c04:visit-1way",
             "c04:visit-2way", "c04:visit-3way", "c04:visit-4way", "design:mask", "design:filter",
             "design:equals-fixed-point-model"],
-    "C06": ["c06:accept-truncating", "c06:fast-outside-precondition", "c06:foreign-char"] +
+    "C06": ["c06:large-strand-first", "c06:accept-truncating", "c06:fast-outside-precondition", "c06:foreign-char"] +
            ["c06:%s:%s:%s" % (m, w, c) for m in ("normal", "fast") for w in ("none", "branching", "1way", "dead")
             for c in ("nocheck", "checkok", "checkbad")],
     "C07": ["c07:formula-unwrapped", "c07:formula-wrapped"],
